@@ -54,6 +54,8 @@ struct ConnAck {
     cur: Option<String>,
     /// delayed SetKeyspace answers: (instant the answer is written, keyspace)
     pending: Vec<(Instant, String)>,
+    /// USE statements seen on this connection (debugging aid)
+    hist: Vec<String>,
 }
 impl ConnAck {
     fn apply_due(&mut self, now: Instant) {
@@ -105,6 +107,7 @@ fn handler(sh: Arc<Shared>) -> Handler {
             let mut acks = sh.acks.lock().unwrap();
             let a = acks.entry(ctx.conn_id).or_default();
             a.apply_due(now);
+            a.hist.push(format!("{:?}@{:?}:{}", *fault, now, text));
             return match *fault {
                 UseFault::None => {
                     if let Some(k) = target {
@@ -152,6 +155,9 @@ fn handler(sh: Arc<Shared>) -> Handler {
                 sh.early.fetch_add(1, Ordering::Relaxed);
             } else if a.cur != ctx.keyspace {
                 sh.xck.fetch_add(1, Ordering::Relaxed);
+                if std::env::var("C20_DEBUG").is_ok() {
+                    eprintln!("XCK conn {} mine {:?} mock {:?} now {:?} hist {:?}", ctx.conn_id, a.cur, ctx.keyspace, now, a.hist);
+                }
             }
             let acked = match &a.cur {
                 Some(k) => enc_name(k),
